@@ -19,3 +19,6 @@ Definition exc_runtime_error : bytes := Eval compute in (hx "52756e74696d6545727
 Definition wrap_prefix : bytes := Eval compute in (hx "6374783a20"). (* "ctx: " *)
 Definition panic_prefix : bytes := Eval compute in (hx "68616e646c65722070616e69636b65643a20"). (* "handler panicked: " *)
 Definition schema_result_int64 : bytes := Eval compute in (hx "726573756c743a696e743634"). (* "result:int64" *)
+Definition pv_error_kind : bytes := Eval compute in (hx "70726f746f636f6c5f76657273696f6e5f6d69736d61746368"). (* "protocol_version_mismatch" *)
+Definition pv_error_type : bytes := Eval compute in (hx "50726f746f636f6c56657273696f6e4572726f72"). (* "ProtocolVersionError" *)
+Definition meta_protocol_version : bytes := Eval compute in (hx "7667695f7270632e70726f746f636f6c5f76657273696f6e"). (* "vgi_rpc.protocol_version" *)
